@@ -466,7 +466,100 @@ pub fn family_program(r: &mut Rng, ctx: &GenCtx) -> Vec<ISpec> {
         let b = 2 + r.below(8) as usize;
         ctx.tree(r, b, 2)
     };
-    match r.below(10) {
+    match r.below(12) {
+        11 => {
+            // LIST records: items move between stacks by stack id (1..12, invalid ids, repeats, the
+            // EXEC and CODE ids themselves), then are addressed by clamped positions
+            let mut v = vec![];
+            let ids = |r: &mut Rng| -> ISpec {
+                let n = r.below(7) as usize;
+                ISpec::IV((0..n).map(|_| if r.chance(1, 8) { gen_small_int(r) } else { r.range(1, 12) as i32 }).collect())
+            };
+            for _ in 0..(3 + r.below(14)) {
+                match r.below(9) {
+                    0..=1 => {
+                        v.push(ctx.literal(r));
+                        v.push(ctx.literal(r));
+                    }
+                    2..=3 => {
+                        v.push(ids(r));
+                        v.push(i("LIST.ADD"));
+                    }
+                    4 => {
+                        v.push(ids(r));
+                        v.push(ISpec::Int(gen_small_int(r)));
+                        v.push(i("LIST.SET"));
+                    }
+                    5 => {
+                        v.push(ISpec::Int(gen_small_int(r)));
+                        v.push(i(*r.pick(&["LIST.GET", "LIST.REMOVE"])));
+                    }
+                    6 => {
+                        v.push(ISpec::Int(gen_small_int(r)));
+                        v.push(ISpec::Int(gen_small_int(r)));
+                        v.push(i(*r.pick(&["LIST.BVAL", "LIST.IVAL", "LIST.FVAL"])));
+                    }
+                    7 => {
+                        v.push(ISpec::F(((r.unit() * 3.0) as f32).to_bits()));
+                        for _ in 0..4 {
+                            v.push(ISpec::Int(gen_small_int(r)));
+                        }
+                        v.push(i(*r.pick(&["LIST.NEIGHBOR*IDS", "LIST.NEIGHBOR*BVALS", "LIST.NEIGHBOR*IVALS", "LIST.NEIGHBOR*FVALS"])));
+                    }
+                    _ => v.push(ctx.instr(r)),
+                }
+            }
+            vec![ISpec::L(v)]
+        }
+        10 => {
+            // a structured graph history: in a simulated run node ids start at 1 (H4b), so small
+            // integer literals are valid, stale or not-yet-valid ids
+            let mut v = vec![i("GRAPH.ADD")];
+            let k = 1 + r.below(6) as i32;
+            for n in 0..k {
+                v.push(ISpec::Int(n % 3));
+                v.push(i("GRAPH.NODE*ADD"));
+                if r.chance(1, 2) {
+                    v.push(i("INTEGER.POP"));
+                }
+            }
+            let gi: Vec<String> = ctx.instrs.iter().filter(|n| n.starts_with("GRAPH.")).cloned().collect();
+            for _ in 0..(4 + r.below(16)) {
+                match r.below(8) {
+                    0..=2 => {
+                        v.push(ISpec::Int(r.range(0, k as i64 + 2) as i32));
+                        v.push(ISpec::Int(r.range(0, k as i64 + 2) as i32));
+                        v.push(ISpec::F(((r.unit() * 2.0 - 1.0) as f32).to_bits()));
+                        v.push(i(*r.pick(&["GRAPH.EDGE*ADD", "GRAPH.EDGE*SETWEIGHT", "GRAPH.EDGE*GETWEIGHT"])));
+                    }
+                    3 => v.push(i("GRAPH.DUP")),
+                    4 => {
+                        let n = r.below(5) as usize;
+                        v.push(ISpec::IV((0..n).map(|_| r.range(0, k as i64 + 2) as i32).collect()));
+                        v.push(ISpec::BV((0..r.below(5)).map(|_| r.chance(1, 2)).collect()));
+                        v.push(ISpec::Int(gen_small_int(r)));
+                        v.push(ISpec::Int(gen_small_int(r)));
+                        v.push(i("GRAPH.NODE*STATESWITCH"));
+                    }
+                    5 => {
+                        v.push(ISpec::IV((0..r.below(3)).map(|_| r.range(-1, 3) as i32).collect()));
+                        v.push(ISpec::Int(r.range(-1, k as i64 + 2) as i32));
+                        v.push(i(*r.pick(&["GRAPH.NODE*NEIGHBORS", "GRAPH.NODE*PREDECESSORS", "GRAPH.NODE*SUCCESSORS", "GRAPH.NODES", "GRAPH.NODES*HISTORY"])));
+                    }
+                    6 => {
+                        v.push(ISpec::Int(r.range(-1, k as i64 + 2) as i32));
+                        v.push(ISpec::Int(r.range(-1, 4) as i32));
+                        v.push(i(*r.pick(&["GRAPH.NODE*HISTORY", "GRAPH.EDGE*HISTORY", "GRAPH.NODE*GETSTATE", "GRAPH.NODE*SETSTATE", "GRAPH.PRINT*DIFF", "GRAPH.PRINT"])));
+                    }
+                    _ => {
+                        if !gi.is_empty() {
+                            v.push(ISpec::I(r.pick(&gi).clone()));
+                        }
+                    }
+                }
+            }
+            vec![ISpec::L(v)]
+        }
         9 => {
             // the GRAPH stack is a bounded stack-kind buffer (capacity 100): fill it
             vec![ISpec::L(vec![
